@@ -16,12 +16,12 @@ pub static PROP: PropDef = PropDef {
     id: "C06",
     rule: "case = role x adversarial peer script: a well-formed template (request(s) with body and trailers, concurrent requests, control traffic with GOAWAY, QPACK / push / unknown / grease uni streams) with \
            (a) one fault {FIN, RESET(code), STOP_SENDING(code), connection close(code), idle timeout} injected at a step index (every index in the exhaustive tier), (b) byte mutations (flip / insert / delete / truncate / varint-length tweak) at generated positions, \
-           (c) arbitrary bytes on request, control, QPACK, push and unknown streams; x delivery schedule from the tape; every script ends with one of two epilogues: the peer closes the connection, or it finishes / resets every request-stream direction it writes on. \
-           oracle (validity predicate): no poll panics (h3 is built with overflow checks and debug assertions) and at quiescence no h3 future is left pending: after a close every task has completed; after the streams-only epilogue every task except the connection-level waits (accept(), poll_close) has. \
+           (c) arbitrary bytes on request, control, QPACK, push and unknown streams; x delivery schedule from the tape x unidirectional-stream credit for the h3 end (unlimited, or exactly three for ever so that its optional grease stream never opens); every script ends with one of two epilogues: the peer closes the connection, or it finishes / resets every request-stream direction it writes on. \
+           oracle (validity predicate): no poll panics (h3 is built with overflow checks and debug assertions) and at quiescence no h3 future is left pending: after a close every task has completed; after the streams-only epilogue every task except the connection-level waits (accept(), poll_close) has - and those too once the peer has finished its control stream. \
            non-trivial = the fault or mutation lands before the scenario's last byte and at least one frame had been decoded; distinct by (script hash, schedule)",
     assumptions: &["applications follow the documented call patterns (read to the end, then trailers; respond; finish); quiescence of the closed system decides 'forever'", "the transport has unlimited send credit here (back-pressure is covered by C01/C04/C14)"],
     tape_len: 300,
-    random_cases: |t| t.pick(500_000, 12_000_000),
+    random_cases: |t| t.pick(2_000_000, 30_000_000),
     run_tape,
     exhaustive: Some(exhaustive),
     run_direct: Some(run_direct),
@@ -106,6 +106,9 @@ pub struct Script {
     pub style: Style,
     pub nreq: usize,
     pub label: &'static str,
+    /// the peer grants exactly three unidirectional streams and never more (RFC 9114 6.2 minimum): h3's optional grease
+    /// stream can never be opened
+    pub uni_frozen: bool,
 }
 
 /// well-formed templates; keys: 0 = control, 1.. = request streams, 10.. other uni streams
@@ -237,6 +240,11 @@ pub fn run_script(s: &Script, sched: &[u16], ctx: &mut Ctx) -> Verdict {
     let side = if s.server { Side::Server } else { Side::Client };
     let raw = side.other();
     net.set_raw(raw);
+    if s.uni_frozen {
+        let mut g = net.lock();
+        g.ends[side.idx()].stream_credit[1] = 3;
+        g.ends[side.idx()].grants_frozen = true;
+    }
     let mut ex = Exec::new();
     let sp = ex.spawner.clone();
     if s.server {
@@ -267,25 +275,37 @@ pub fn run_script(s: &Script, sched: &[u16], ctx: &mut Ctx) -> Verdict {
     let mut t = Tape::new(sched);
     let end = ex.run(&net, &mut peer, &mut t, s.style, 300_000);
     let closes = net.close_calls(side);
-    let case = || json!({"role": if s.server { "server" } else { "client" }, "label": s.label, "ops": ops_json(&s.ops), "close_epilogue": s.close_epilogue, "timeout_epilogue": s.timeout_epilogue, "style": format!("{:?}", s.style), "nreq": s.nreq, "sched": sched, "closes": format!("{closes:?}")});
+    let case = || json!({"role": if s.server { "server" } else { "client" }, "label": s.label, "ops": ops_json(&s.ops), "close_epilogue": s.close_epilogue, "timeout_epilogue": s.timeout_epilogue, "style": format!("{:?}", s.style), "nreq": s.nreq, "uni_frozen": s.uni_frozen, "sched": sched, "closes": format!("{closes:?}")});
     if end == RunEnd::StepBound {
         return Err(Failure::fault("step bound"));
     }
     if let Some((task, p)) = ex.panics().first() {
         return Err(Failure::direct(format!("panic in task {task}: {p}"), case()));
     }
-    let conn_over = s.close_epilogue.is_some() || s.timeout_epilogue || !closes.is_empty() || net.lock().ends[side.idx()].dead();
+    // the peer finished its control stream (key 0, first varint = stream type 0, not reset): the connection-level calls wait
+    // on that stream too, so they must have completed (H3_CLOSED_CRITICAL_STREAM or an earlier error)
+    let control_finished = {
+        let g = net.lock();
+        peer.peer.stream(0).and_then(|id| g.pipes.get(&(id, raw))).map(|p| p.fin_issued && p.reset.is_none() && matches!(rv::decode(&p.written), rv::Dec::Ok(0, _))).unwrap_or(false)
+    };
+    if control_finished {
+        ctx.class("peer_finished_its_control_stream");
+    }
+    let conn_over = s.close_epilogue.is_some() || s.timeout_epilogue || !closes.is_empty() || net.lock().ends[side.idx()].dead() || control_finished;
     let pending: Vec<String> = ex.pending_tasks().into_iter().filter(|n| n != "conn-holder" && (conn_over || !n.starts_with("conn-"))).collect();
     if !pending.is_empty() {
         // lost wake-up or genuinely waiting? one spurious poll of everything tells
         ex.spurious_poll_all();
         let still: Vec<String> = ex.pending_tasks().into_iter().filter(|n| n != "conn-holder" && (conn_over || !n.starts_with("conn-"))).collect();
         let why = if still.is_empty() { "a spurious poll completes them: lost wake-up" } else { "still pending after a spurious poll: the call waits for something that will never come" };
-        return Err(Failure::direct(format!("tasks left pending forever after the peer {}: {pending:?} ({why})", if conn_over { "closed the connection" } else { "finished or reset every request stream" }), case()));
+        return Err(Failure::direct(format!("tasks left pending forever after the peer {}: {pending:?} ({why})", if control_finished && closes.is_empty() { "finished its control stream" } else if conn_over { "closed the connection" } else { "finished or reset every request stream" }), case()));
     }
     ctx.class(if s.server { "role_server" } else { "role_client" });
     ctx.class(if s.close_epilogue.is_some() || s.timeout_epilogue { "epilogue_close" } else { "epilogue_streams" });
     ctx.class(s.label);
+    if s.uni_frozen {
+        ctx.class("grease_stream_blocked_for_ever");
+    }
     if !closes.is_empty() && closes[0].code != code::NO_ERROR {
         ctx.class("h3_closed_with_error");
     }
@@ -328,7 +348,9 @@ fn exhaustive(ctx: &mut Ctx, shard: usize, nshards: usize) -> Verdict {
                 idx += 1;
                 if idx % nshards == shard {
                     for style in [Style::Eager, Style::Tiny] {
-                        run_script(&Script { server, ops: ops.clone(), close_epilogue: epi, timeout_epilogue: false, style, nreq, label: "template" }, &[], ctx)?;
+                        for uni_frozen in [false, true] {
+                            run_script(&Script { server, ops: ops.clone(), close_epilogue: epi, timeout_epilogue: false, style, nreq, label: "template", uni_frozen }, &[], ctx)?;
+                        }
                     }
                 }
                 // one fault at every step index
@@ -345,7 +367,9 @@ fn exhaustive(ctx: &mut Ctx, shard: usize, nshards: usize) -> Verdict {
                             }
                             let cells = prf_cells(idx as u64, 80);
                             for (style, sch) in [(Style::Eager, &[][..]), (Style::Random, &cells[..])] {
-                                run_script(&Script { server, ops: o.clone(), close_epilogue: epi, timeout_epilogue: false, style, nreq, label: "fault_injected" }, sch, ctx)?;
+                                for uni_frozen in [false, true] {
+                                    run_script(&Script { server, ops: o.clone(), close_epilogue: epi, timeout_epilogue: false, style, nreq, label: "fault_injected", uni_frozen }, sch, ctx)?;
+                                }
                             }
                         }
                     }
@@ -361,7 +385,7 @@ fn exhaustive(ctx: &mut Ctx, shard: usize, nshards: usize) -> Verdict {
                             let mut o = ops.clone();
                             o[i] = PeerOp::Write(*k, b[..cut].to_vec());
                             // what followed on that stream would be misaligned garbage: keep it (that is the point)
-                            run_script(&Script { server, ops: o, close_epilogue: epi, timeout_epilogue: false, style: if cut % 2 == 0 { Style::Eager } else { Style::Tiny }, nreq, label: "bytes_mutated" }, &[], ctx)?;
+                            run_script(&Script { server, ops: o, close_epilogue: epi, timeout_epilogue: false, style: if cut % 2 == 0 { Style::Eager } else { Style::Tiny }, nreq, label: "bytes_mutated", uni_frozen: cut % 3 == 1 }, &[], ctx)?;
                         }
                     }
                 }
@@ -369,7 +393,7 @@ fn exhaustive(ctx: &mut Ctx, shard: usize, nshards: usize) -> Verdict {
         }
     }
     if shard == 0 {
-        ctx.subspace("5 templates x 2 roles x 3 epilogues x (fault kind x code x every step index | every truncation of every write)", idx as u64);
+        ctx.subspace("5 templates x 2 roles x 3 epilogues x (fault kind x code x every step index | every truncation of every write) x uni-stream credit unlimited / frozen at three", idx as u64);
     }
     Ok(())
 }
@@ -459,6 +483,7 @@ fn run_tape(tape: &[u16], ctx: &mut Ctx) -> Verdict {
         style: [Style::Eager, Style::Tiny, Style::Random][t.pick(3)],
         nreq,
         label,
+        uni_frozen: t.chance(1, 4),
     };
     let sched: Vec<u16> = tape[t.position().min(tape.len())..].to_vec();
     run_script(&s, &sched, ctx)
@@ -510,6 +535,6 @@ fn run_direct(d: &Value, ctx: &mut Ctx) -> Verdict {
         _ => Style::Random,
     };
     let sched: Vec<u16> = d["sched"].as_array().map(|a| a.iter().map(|x| x.as_u64().unwrap_or(0) as u16).collect()).unwrap_or_default();
-    let s = Script { server: d["role"].as_str() == Some("server"), ops, close_epilogue: d["close_epilogue"].as_u64(), timeout_epilogue: d["timeout_epilogue"].as_bool().unwrap_or(false), style, nreq: d["nreq"].as_u64().unwrap_or(1) as usize, label: "replay" };
+    let s = Script { server: d["role"].as_str() == Some("server"), ops, close_epilogue: d["close_epilogue"].as_u64(), timeout_epilogue: d["timeout_epilogue"].as_bool().unwrap_or(false), style, nreq: d["nreq"].as_u64().unwrap_or(1) as usize, label: "replay", uni_frozen: d["uni_frozen"].as_bool().unwrap_or(false) };
     run_script(&s, &sched, ctx)
 }
